@@ -117,6 +117,9 @@ func c11GenesisProperty(t *rapid.T) {
 		nt = fmt.Sprintf("genesis/%v/%d/%d/%d/%d", audit, admins, allowedState, allowedChain, n)
 	}
 	st.Case(nt, "genesis-commit-interrupted")
+	if nt != "" && st.WantSample() {
+		st.Sample(map[string]interface{}{"genesis_commit_interrupted": true, "audit": audit, "admins": admins, "state_store_writes_completed": allowedState, "of": seenS, "chain_store_writes_completed": allowedChain, "of_chain": seenC, "txs_in_block_2": n})
+	}
 }
 
 func minInt(a, b int) int {
